@@ -269,3 +269,28 @@ pub fn inst_near(u: &mut Unstructured, a: Inst, margin: i64) -> Result<Inst> {
     let hi = (cal::MAX_DAY - margin) as i128 * tl::DAY_NS + tl::DAY_NS - 1;
     Ok(Inst::from_i((ai + sign * d).clamp(lo, hi)))
 }
+
+/// A receiver on one of the two outermost days at either end of the range together with an offset,
+/// such that both the instant and its local reading are representable.
+pub fn edge_inst_off(u: &mut Unstructured) -> arbitrary::Result<(Inst, i32)> {
+    let top = u.ratio(1, 2)?;
+    let day = if top { cal::MAX_DAY - u.int_in_range(0..=1i64)? } else { cal::MIN_DAY + u.int_in_range(0..=1i64)? };
+    let off = if u.ratio(1, 6)? { 0 } else { offset(u)? };
+    let o = off as i64 * 1_000_000_000;
+    let ns = if (top && off > 0 && day == cal::MAX_DAY) || (!top && off < 0 && day == cal::MIN_DAY) {
+        let room = 86_400_000_000_000 - o.abs();
+        let t = u.int_in_range(0..=room - 1)?;
+        if top {
+            t
+        } else {
+            t + o.abs()
+        }
+    } else {
+        match u.int_in_range(0..=3u8)? {
+            0 => 0,
+            1 => 86_399_999_999_999,
+            _ => u.int_in_range(0..=86_399_999_999_999i64)?,
+        }
+    };
+    Ok((Inst { day, ns }, off))
+}
